@@ -450,7 +450,13 @@ class Interp:
             if ak == 'array':
                 return ('array', tuple(ops))
             if ak == 'closure':
-                return ('closure', rv.get('res', {}).get('id'), tuple(ops))
+                cid = rv.get('res', {}).get('id')
+                if cid is None and rv.get('def') and getattr(self.suite, 'by_path', None):
+                    # generic facts: the closure's own body, found by its definition path
+                    cands = self.suite.by_path.get(rv['def'], [])
+                    if len(cands) == 1:
+                        cid = cands[0]['id']
+                return ('closure', cid, tuple(ops))
             return ('unk', 'aggr')
         if k == 'discr':
             v = self.read_res(st, self.resolve(st, frame, rv['place']))
